@@ -265,7 +265,7 @@ pub fn case_c05(d: &[u8]) -> c05::Case {
             _ => 0,
         };
     }
-    c05::Case { base: c09::Case { prob, span, method, rtol, atol, analytic_jac, max_step, recipes, first_step: None }, t_eval, budget }
+    c05::Case { base: c09::Case { prob, span, method, rtol, atol, analytic_jac, max_step, recipes, first_step: None }, t_eval, budget, empty_state: false }
 }
 
 /// C09: the event part of a C05 case (no terminal flags); one span in eight on a picosecond time axis
